@@ -60,6 +60,12 @@ def generate(seed, tier="quick"):
     prof.special = [s for s in prof.special if s not in ("norepr", "complex")]
     prog = W.gen_program(rng, prof, {"prev": ["none", "none", "other", "edit", "slack", "superset", "wrong"], "n_files": (1, 3), "n_sites": (1, 3),
                                      "n_tests": (1, 2), "styles": ["assert", "rec"], "places": ["direct", "direct", "func", "module"], "max_obs": 3})
+    lr = sub(seed, "layout")
+    for f in prog["files"]:
+        f["header"] = W.gen_layout_c03(lr)  # comments, non-ASCII, tabs, CRLF line ends: the write path may depend on them
+        if lr.random() < 0.25:
+            f["header"]["eol"] = "crlf"
+            f["header"].pop("tabs", None)
     # externals: 0-3 sites comparing outsourced data
     xr = sub(seed, "externals")
     n = 0
